@@ -92,6 +92,55 @@ SEEDS.update({
  "C20c": dict(prop="C20", file="pool/multiannotator/_wrapper.py (_n_to_assign_annotators)", needs="n_annotators_per_sample >= 2, a selected sample with fewer available annotators and a batch of >= 3 pairs", caught_by=["C20", "C07"],
               first_version="MISSED by C20 (its order oracle ran with one annotator per sample only; now also with two)"),
 })
+
+# round 4: sub-agents were asked for defects in NON-DEFAULT MODES (optional constructor / method parameters, flags, argument formats);
+# "first_version" = what the checks as of commit 3b7dc67 (before this round) reported when re-run against the patch (/tmp/oldrun4.sh protocol)
+R4 = {
+ "C01d": ("C01", "pool/_wrapper.py (SubSamplingWrapper.query)", "exclude_non_subsample=True and candidates given as an index array that does not cover all unlabeled samples", ["C01"], ""),
+ "C02d": ("C02", "pool/_falcun.py (query)", "Falcun(gamma=0) (documented as random sampling), batch_size >= 2 and a random collision with an earlier pick (0**0 == 1 gives earlier picks mass again)", ["C02", "C01"],
+          "no subject used gamma=0; the pool catalogue now has non-default constructor variants (Falcun[gamma=0], GreedySamplingTarget[n_GSx_samples=2], ProbabilisticAL[m_max,prior], UncertaintySampling[cost_matrix], ValueOfInformationEER[labeled only])"),
+ "C03d": ("C03", "stream/budgetmanager/_estimated_budget_zliobaite.py (RandomBudgetManager.query_by_utility)", "a chunk whose utilities are all NaN (the early return skips the generator restore)", ["C03"], ""),
+ "C04d": ("C04", "stream/budgetmanager/_threshold_budget.py (DensityBasedSplitBudgetManager.update)", "more than 127 granted labels on one manager (the counter silently becomes an int8 and wraps)", ["C04"],
+          "the state graph ends after a dozen instances; C04 now also runs every periodic utility stream (period <= 2) for 600 / 3000 instances and judges the bound at every prefix"),
+ "C05d": ("C05", "pool/multiannotator/_interval_estimation_threshold.py (query)", "annotators given as a boolean ndarray with a partially available row (overwritten in place)", ["C05"],
+          "the multi-annotator part of C05 skipped partially available rows for IntervalEstimationThreshold (it only needed them for the validity oracle of C07, not for the side-effect oracle)"),
+ "C06d": ("C06", "pool/_clue.py (query)", "a non-empty caller-owned cluster_algo_dict without random_state and two queries sharing it", ["C06", "C05"], ""),
+ "C07d": ("C07", "base.py (MultiAnnotatorPoolQueryStrategy._transform_cand_annot)", "candidates=None with a boolean availability matrix that has a row without available annotator (IndexError)", ["C07"], ""),
+ "C08d": ("C08", "pool/_wrapper.py (SubSamplingWrapper.query)", "exclude_non_subsample=True, return_utilities=False and index / None candidates: the selection is not translated back to the caller's index space", ["C01", "C20"],
+          "C08 itself always requests utilities (C01 reported the defect as a selected non-candidate); C20 now requires the selection to be independent of return_utilities"),
+ "C09d": ("C09", "pool/utils.py (IndexClassifierWrapper.fit)", "an expected-error-reduction strategy queried with non-integral sample_weight and int / string labels (weights cast to the label dtype)", ["C09"],
+          "C09 never passed sample_weight; it now has a pass with non-integral weights for every strategy that accepts them"),
+ "C10d": ("C10", "stream/_stream_baselines.py (StreamRandomSampling.query)", "allow_exceeding_budget=False and a chunk in which the budget limit is crossed", ["C10", "C04"], ""),
+ "C11d": ("C11", "classifier/_wrapper.py (SlidingWindowClassifier._add_samples)", "only_labeled=True, an earlier fit with labels and then fit on a batch without any label (window not reset)", ["C11", "C13"], ""),
+ "C12d": ("C12", "regressor/_nic_kernel_regressor.py (fit)", "sample_weight with a zero at a labeled sample and an unlabeled sample before a labeled one (features taken from the wrong rows)", ["C12"],
+          "weights of labeled samples were strictly positive in every pattern; a pattern with zeros at labeled rows was added"),
+ "C13d": ("C13", "classifier/_mixture_model_classifier.py (fit)", "an unfitted mixture_model given by the caller and two fits on different data (the caller's mixture is fitted in place and reused)", ["C13"], ""),
+ "C14d": ("C14", "pool/_greedy_sampling.py (GreedySamplingTarget.query)", "a batch that is split into a GSx and a GSi/GSy part (n_labeled < n_GSx_samples < n_labeled + batch_size)", ["C14", "C01"], ""),
+ "C15d": ("C15", "regressor/_wrapper.py (SklearnRegressor.predict)", "fall-back prediction (estimator not fitted), a non-integral label mean and integer-typed query points", ["C15"],
+          "query points were float arrays only; predictions for integer-typed query points are now compared with those for the same points as floats"),
+ "C16d": ("C16", "utils/_label.py (check_missing_label)", "missing_label given as a numpy scalar (np.int64(-1), np.float32(-1)): TypeError", ["C16"],
+          "sentinels were Python scalars only, and the oracle accepted every TypeError as a documented rejection; numpy-scalar sentinels were added and only the one documented rejection (empty list + string sentinel) is accepted"),
+ "C17d": ("C17", "utils/_label.py (is_unlabeled)", "a string sentinel that is longer than the array's string width and a label that is a prefix of it ('n' vs 'nan' in a fully annotated <U1 matrix)", ["C17", "C16"],
+          "no label was a prefix of its sentinel; encodings strprefix/nan were added to C16 and C17"),
+ "C18d": ("C18", "utils/_selection.py (simple_batch)", "utilities given as an array that is neither C- nor F-contiguous, return_utilities=True and batch_size >= 2", ["C18"],
+          "inputs were contiguous; every max-mode case is now also run on a strided view"),
+ "C19d": ("C19", "classifier/_parzen_window_classifier.py (fit)", "metric_dict={'gamma': 'mean'}: the bandwidth of the first fit is frozen in the caller's dict", ["C19", "C13"],
+          "C19's Parzen window classifier had a fixed bandwidth (C13 reported the defect); gamma='mean' configurations were added to C19"),
+ "C20d": ("C20", "pool/multiannotator/_wrapper.py (SingleAnnotatorWrapper.query)", "A_perf with values <= -1 and a gap > 1 (normalisation leaves [0, 1)) and n_annotators_per_sample >= 2", ["C20", "C07"],
+          "A_perf was [0.5, 0.5] or None; a negative-valued vector was added to C07 and to the order oracle of C20"),
+}
+_old4 = {}
+if os.path.exists("/tmp/probe/oldrun4.out"):
+    for ln in open("/tmp/probe/oldrun4.out"):
+        f = ln.split()
+        if len(f) == 3 and f[2].startswith("violations="):
+            _old4[f[0]] = int(f[2].split("=")[1])
+for _sid, (_prop, _file, _needs, _by, _why) in R4.items():
+    _n = _old4.get(_sid)
+    _fv = "not re-run" if _n is None else ("caught" if _n > 0 else "MISSED" + (": " + _why if _why else ""))
+    if _n is not None and _n > 0 and _why:
+        _fv = "caught by the previous version; strengthened all the same: " + _why
+    SEEDS[_sid] = dict(prop=_prop, file=_file, needs=_needs, caught_by=_by, first_version=_fv)
 INVALID = {"C02": "rand_argmax with np.isclose: FAILS skactiveml/pool/tests/test_uncertainty_sampling.py::TestUncertaintySampling::test_query under the repository's serial baseline command (it only passes under pytest-xdist, which the sub-agent used); not kept. C02 (real-seed runs) and C18 (near-tie alphabet, added because of it) both report it.",
            "C18": "identical patch to the C02 attempt (np.isclose in rand_argmax); not kept for the same reason."}
 
@@ -99,7 +148,7 @@ INVALID = {"C02": "rand_argmax with np.isclose: FAILS skactiveml/pool/tests/test
 def main():
     home = os.path.dirname(os.path.dirname(os.path.abspath(__file__)))
     for sid, m in SEEDS.items():
-        src = ("/tmp/seed3/%s_out" if sid.endswith("c") else "/tmp/seed/%s_out") % sid
+        src = ("/tmp/seed4/%s_out" if sid.endswith("d") else "/tmp/seed3/%s_out" if sid.endswith("c") else "/tmp/seed/%s_out") % sid
         dst = os.path.join(home, "seeded", sid)
         os.makedirs(dst, exist_ok=True)
         for f in ("patch.diff", "demo.py", "notes.md"):
